@@ -149,7 +149,11 @@ fn pick_edit(p: &crate::gen::sem::Program, class: &str, pick: usize) -> Option<E
             // `}` is not locally detectable (the block just goes on), and `=` before `{` reads as a bit-range suffix
             let cands: Vec<usize> = (0..toks.len())
                 .filter(|&i| matches!(&text[toks[i].1..toks[i].2], ";" | "=" | ":"))
-                .filter(|&i| !(&text[toks[i].1..toks[i].2] == "=" && toks.get(i + 1).map(|t| &text[t.1..t.2] == "{").unwrap_or(false)))
+                .filter(|&i| {
+                    // … and any of them before `[`, `{` or `.`, which then read as a suffix of the value before
+                    let next = toks.get(i + 1).map(|t| &text[t.1..t.2]).unwrap_or("");
+                    !(matches!(&text[toks[i].1..toks[i].2], "=" | ":") && matches!(next, "{" | "[" | "."))
+                })
                 .collect();
             let i = *cands.get(pick % cands.len().max(1))?;
             let prev_end = if i > 0 { toks[i - 1].2 } else { 0 };
